@@ -22,6 +22,7 @@ func execHist(spec *RunSpec, st *Stats) *Violation {
 	trees := map[int]*treeHandle{}
 	fps := map[*treeHandle]uint64{}
 	c15 := spec.Property == "C15"
+	c14 := spec.Property == "C14"
 	prevFailed := false
 	var prevDoc = -1
 	for i, op := range ops {
@@ -76,6 +77,32 @@ func execHist(spec *RunSpec, st *Stats) *Violation {
 			prevFailed = res.Sink.errCalls > 0
 			if st != nil && prevFailed {
 				st.Inc("fired." + res.Sink.fired)
+			}
+			if c14 {
+				// C14 over histories: the clauses of C14 for a faulted call on a LONG-USED instance,
+				// possibly right after other calls failed (with other destinations and error values)
+				cfg := spec.Cfg
+				if op.Kind == "PkgConvert" {
+					cfg = Config{}
+				}
+				if op.Kind == "AuxConvert" || op.Kind == "RenderOther" {
+					cfg = *op.Aux
+				}
+				src := env.pristine(op.Doc)
+				if res.Tree != nil {
+					src = env.pristine(res.Tree.doc)
+				}
+				ref := refModel.Get(cfg, src)
+				if ref.out == nil {
+					continue
+				}
+				if st != nil {
+					st.Inc("hist.c14_faulted_ops_judged")
+				}
+				if v := checkFaulted(&res, ref.out); v != nil {
+					v.Client, v.Op = 0, i
+					return v
+				}
 			}
 			continue
 		}
@@ -217,6 +244,10 @@ func genHistSpec(p *histParams, c *Corpus, run int) *RunSpec {
 	rc, rd, ro, rf := root.Split("config"), root.Split("docs"), root.Split("ops"), root.Split("faults")
 	c15 := p.prop == "C15"
 	faulty := run%2 == 1 // fault-free and fault-injecting histories are separate sub-batches
+	c14 := p.prop == "C14"
+	if c14 {
+		faulty = true
+	}
 	mode := "any"
 	if c15 {
 		mode = "c15"
@@ -298,6 +329,19 @@ func genHistSpec(p *histParams, c *Corpus, run int) *RunSpec {
 			ops = append(ops, Op{Kind: "GC"})
 		}
 		switch {
+		case c14 && k < 62 && ro.Chance(1, 2):
+			// C14 histories: half of the calls meet a failing destination
+			f := genFault(rf, 400)
+			switch {
+			case len(liveTrees) > 0 && ro.Chance(1, 3):
+				ops = append(ops, Op{Kind: "Render", Tree: pick(ro, liveTrees), Stack: stack, Fault: f})
+			case cfg.IsDefault() && ro.Chance(1, 3):
+				ops = append(ops, Op{Kind: "PkgConvert", Doc: docFor(), Stack: stack, Ctx: ctx, Fault: f})
+			case ro.Chance(1, 4):
+				ops = append(ops, Op{Kind: "ParseRender", Doc: docFor(), Stack: stack, Ctx: ctx, Fault: f})
+			default:
+				ops = append(ops, Op{Kind: "Convert", Doc: docFor(), Stack: stack, Ctx: ctx, Fault: f})
+			}
 		case k < 34:
 			ops = append(ops, Op{Kind: "Convert", Doc: docFor(), Stack: stack, Ctx: ctx, Reuse: reuse})
 		case k < 40:
